@@ -157,6 +157,47 @@ mod verif_offsets {
     step_harnesses!(next_step_d3, next_back_step_d3, step_by_d3, split_at_d3, 3);
     step_harnesses!(next_step_d4, next_back_step_d4, step_by_d4, split_at_d4, 4);
 
+    /// The contract that the Verus unit U-offsets-v ASSUMES for `step_outer_pos` (it uses iterator
+    /// adaptors outside Verus' subset): from arbitrary well-formed outer positions it advances the
+    /// outer mixed-radix counter by one (returning true) or wraps it to zero at its last value
+    /// (returning false), keeps every position well-formed and `outer_offset` equal to the sum of
+    /// the outer offsets, and touches nothing else.
+    macro_rules! step_outer_contract {
+        ($name:ident, $d:expr) => {
+            #[kani::proof]
+            #[kani::unwind(6)]
+            pub fn $name() {
+                let g: Ghost<$d> = any_ghost();
+                let mut ob = build(&g);
+                let n_outer = $d - INNER_NDIM;
+                let before = ob.clone();
+                let r = ob.step_outer_pos();
+                // outer digits as a mixed-radix number
+                let mut lin0 = 0usize; let mut lin1 = 0usize; let mut tot = 1usize; let mut sum = 0usize;
+                for d in 0..n_outer {
+                    let (p0, p1) = (before.outer_pos[d], ob.outer_pos[d]);
+                    assert!(p1.max_remaining == p0.max_remaining && p1.stride == p0.stride, "dims unchanged");
+                    assert!(p1.remaining <= p1.max_remaining && p1.offset == p1.index() * p1.stride, "position well-formed");
+                    lin0 = lin0 * p0.size() + p0.index();
+                    lin1 = lin1 * p1.size() + p1.index();
+                    tot *= p0.size();
+                    sum += p1.offset;
+                }
+                assert!(ob.outer_offset == sum, "outer_offset in sync");
+                if r { assert!(lin1 == lin0 + 1); } else { assert!(lin1 == 0 && lin0 + 1 == tot); }
+                assert!(ob.len == before.len && ob.inner_offset == before.inner_offset);
+                for k in 0..INNER_NDIM {
+                    assert!(ob.inner_pos[k].remaining == before.inner_pos[k].remaining && ob.inner_pos[k].offset == before.inner_pos[k].offset);
+                }
+                kani::cover!(r);
+                kani::cover!(!r);
+            }
+        };
+    }
+    step_outer_contract!(step_outer_pos_contract_d2, 2);
+    step_outer_contract!(step_outer_pos_contract_d3, 3);
+    step_outer_contract!(step_outer_pos_contract_d4, 4);
+
     /// fold visits exactly the remaining elements in order (rank-3 state, <= 8 elements).
     #[kani::proof]
     #[kani::unwind(10)]
